@@ -35,7 +35,7 @@ ASSUMPTIONS = [
 ]
 PROBES = ["remove_0d", "remove_with_interfaces", "remove_highest_dim", "remove_last_subdomain", "replace_by_copy", "replace_1d_refined", "replace_0d",
           "replace_mortar_sides", "add_several_at_once", "codim0_interface", "codim2_interface", "two_subdomains_same_dim", "only_0d_left_boundaries_raises",
-          "rejected_existing_grid", "rejected_existing_interface", "rejected_codim3", "meshed_start", "empty_start", "ge_5_subdomains", "replace_both_ends_in_one_call", "meshed_start_3d", "observation_sparse", "observation_end", "pair_list_reused_by_caller", "twin_instance_used_in_between", "meshed_start_codim0_pair", "replace_member_of_codim0_pair", "container_copied"]
+          "rejected_existing_grid", "rejected_existing_interface", "rejected_codim3", "meshed_start", "empty_start", "ge_5_subdomains", "replace_both_ends_in_one_call", "meshed_start_3d", "observation_sparse", "observation_end", "pair_list_reused_by_caller", "twin_instance_used_in_between", "meshed_start_codim0_pair", "replace_member_of_codim0_pair", "container_copied", "printed_in_between"]
 
 
 def new_grid(dim: int):
@@ -527,7 +527,18 @@ def run_history_c24(ch, tr: Trace) -> None:
         tr.op("twin", "ok", g_t.dim, changing=False)
         check("operations on another MixedDimensionalGrid")
 
+    def op_repr():
+        try:
+            repr(mdg)
+            str(mdg)
+        except Exception:  # noqa: BLE001  printing is not a clause of C24, leaving the container alone is
+            pass
+        tr.probe("printed_in_between")
+        tr.op("repr", "ok", changing=False)
+        check("printing the container")
+
     ops = [
+        Op("repr", 1, op_repr),
         Op("twin_noise", 1, op_twin_noise),
         Op("copy", 1, op_copy),
         Op("add_subdomains", 6, op_add, core=True),
